@@ -1,5 +1,9 @@
 # C06 - Handshakes follow a legal message sequence; no step can be skipped
 HARNESSES = [
+    dict(name="hs_state13", src="hs_state13.c", checks=[],
+         functions=["tls13CheckHsState"], sources=["matrixssl/tls13Decode.c"],
+         assumptions=["hs_state13: all 256 hsState values x all 256 message types x both roles; oracle = RFC 8446 Appendix A transition table in this implementation's state names"],
+         cases=[dict(name="all", defs={})]),
     COMMON["dec12"]("ccs_gate", ["C06"], COMMON["dec12_cases"](64, 40, dtls_only=("dtls10", "dtls12n")) + COMMON["dec12_cases"](96, 56, tier="thorough")),
 ]
 PROPERTY = dict(level='model_checking',
